@@ -272,6 +272,228 @@ def check_io(ck, hb, quick, replay):
     stats["reader_probes"] = W.nprobes; stats["contents"] = len(W.bytes); stats["ios_order"] = [FMT[i] for i in W.ios]
     return stats, seqs
 
+# ------------------------------------------------------------------ machines 2-4: Geometry, Sensors, Mesh objects
+import models
+
+class Renum:
+    def __init__(self): self.d = {}
+    def __call__(self, h):
+        if h not in self.d: self.d[h] = len(self.d) + 1
+        return self.d[h]
+
+def split_lenpref(v):
+    out = []; i = 0
+    while v is not None and i < len(v):
+        n = v[i]; out.append(v[i + 1:i + 1 + n]); i += 1 + n
+    return out
+
+def build_catalog(ck, wd):
+    """files of the object machines; returns dict(G=[...], S=[...], M=[...]) of (label, catalog line)"""
+    D = os.path.join(ombuild.REPO, "data"); gd = os.path.join(wd, "gen"); os.makedirs(gd, exist_ok=True)
+    H1 = os.path.join(D, "Head1")
+    G = [("Head1+cond", "G %s/Head1.geom %s/Head1.cond" % (H1, H1)), ("Head1", "G %s/Head1.geom -" % H1)]
+    imm = models.nested([0.4, 0.6, 0.8, 1.0], [1.0, 0.0, 0.0, 1.0], level=0)
+    g, c = models.write_model(imm, os.path.join(gd, "imm"), stem="imm")
+    G += [("immersed+cond", "G %s %s" % (g, c)), ("immersed", "G %s -" % g)]
+    G += [("HeadMN1+cond", "G %s/HeadMN1/HeadMN1.geom %s/HeadMN1/HeadMN1.cond" % (D, D)),
+          ("missing.geom", "G %s/missing.geom %s/Head1.cond" % (gd, H1)), ("unknown-suffix", "G %s/Head1.cond -" % H1)]
+    # geometry file whose second mesh does not exist: exception in the middle of import
+    txt = open(os.path.join(H1, "Head1.geom")).read()
+    bd = os.path.join(gd, "broken"); os.makedirs(bd, exist_ok=True)
+    for f in ("cortex.1.tri", "skull.1.tri", "scalp.1.tri"): shutil.copy(os.path.join(H1, f), bd)
+    os.remove(os.path.join(bd, "skull.1.tri"))
+    open(os.path.join(bd, "broken.geom"), "w").write(txt)
+    G.append(("broken-mesh-ref", "G %s/broken.geom %s/Head1.cond" % (bd, H1)))
+    G.append(("Head1+wrong-cond", "G %s/Head1.geom %s" % (H1, c)))
+    G.append(("import-Head1-meshes", "I cortex %s/cortex.1.tri skull %s/skull.1.tri scalp %s/scalp.1.tri" % (H1, H1, H1)))
+    G.append(("HeadNNc1+cond", "G %s/HeadNNc1/HeadNNc1.geom %s/HeadNNc1/HeadNNc1.cond" % (D, D)))
+    for k in range(2):
+        m = models.random_model(ck.rng, level=ck.rng.choice([0, 1]))
+        g2, c2 = models.write_model(m, os.path.join(gd, "r%d" % k), stem="r%d" % k)
+        G.append(("random-%s-%d+cond" % (m["info"]["topology"], k), "G %s %s" % (g2, c2)))
+        if k == 0: G.append(("random-%s-%d" % (m["info"]["topology"], k), "G %s -" % g2))
+    # sensors
+    sd = os.path.join(gd, "sens"); os.makedirs(sd, exist_ok=True)
+    def wf(name, txt):
+        p = os.path.join(sd, name); open(p, "w").write(txt); return p
+    S = [("Head1.squids", "S %s/Head1.squids" % H1), ("Head1.eeg", "S %s/Head1.eeg" % H1),
+         ("unlabeled-xyz", "S " + wf("u3.txt", "0.1 0.2 0.3\n0.4 0.5 0.6\n0.7 0.8 0.9\n")),
+         ("unlabeled-7col", "S " + wf("u7.txt", "0.1 0.2 0.3 1.0 0.0 0.0 0.5\n0.4 0.5 0.6 0.0 1.0 0.0 0.5\n")),
+         ("labeled-repeats", "S " + wf("l7.txt", "a 0.1 0.2 0.3 1.0 0.0 0.0 0.5\na 0.4 0.5 0.6 0.0 1.0 0.0 0.5\nb 0.7 0.5 0.6 0.0 1.0 0.0 1.0\nMEG001 0.7 0.5 0.9 0.0 1.0 0.0 1.0\n")),
+         ("labeled-xyz-shares-names", "S " + wf("l3.txt", "b 0.1 0.2 0.3\nMEG001 0.4 0.5 0.6\nzz 1.5 2.5 3.5\n")),
+         ("ragged", "S " + wf("rag.txt", "a 0.1 0.2 0.3\nb 0.4 0.5\n")), ("missing", "S %s/nothere.txt" % sd),
+         ("four-columns", "S " + wf("l4.txt", "p 0.1 0.2 0.3 0.05\nq 0.4 0.5 0.6 0.05\n")),
+         ("Head1-EIT.patches", "S %s/Head1-EIT.patches" % H1), ("Head1-ecog", "S %s/Head1-ecog.electrodes" % H1)]
+    # meshes
+    md = os.path.join(gd, "mesh"); os.makedirs(md, exist_ok=True)
+    v0, t0 = models.icosphere(0); v1, t1 = models.icosphere(1)
+    models.write_tri(os.path.join(md, "ico0.tri"), models.transform(v0, 0.3), t0)
+    models.write_off(os.path.join(md, "ico0.off"), models.transform(v0, 0.3), t0)
+    models.write_tri(os.path.join(md, "ico1.tri"), models.transform(v1, 0.3), t1)       # shares the 12 icosahedron vertices with ico0
+    models.write_bnd(os.path.join(md, "ico0big.bnd"), models.transform(v0, 2.0), t0)
+    M = [("Head1.tri", "M %s/Head1.tri" % H1), ("cortex.1.tri", "M %s/cortex.1.tri" % H1), ("scalp.1.tri", "M %s/scalp.1.tri" % H1),
+         ("ico0.tri", "M %s/ico0.tri" % md), ("ico0.off", "M %s/ico0.off" % md), ("ico1.tri", "M %s/ico1.tri" % md),
+         ("ico0big.bnd", "M %s/ico0big.bnd" % md), ("missing.tri", "M %s/missing.tri" % md), ("unknown-ext", "M %s/Head1.cond" % H1)]
+    with open(os.path.join(wd, "catalog.txt"), "w") as fh:
+        for _, l in G + S + M: fh.write(l + "\n")
+    return dict(G=G, S=S, M=M)
+
+def object_worlds(ck, hb, wd, cat):
+    """one fresh process per catalog entry: what the operation does to a fresh object"""
+    rn = Renum()
+    jobs = [("G", i) for i in range(len(cat["G"]))] + [("S0", i) for i in range(len(cat["S"]))] + [("S1", i) for i in range(len(cat["S"]))] + [("M", i) for i in range(len(cat["M"]))]
+    def run(j):
+        t, i = j; d = os.path.join(wd, "f%s_%d" % (t, i)); os.makedirs(d, exist_ok=True)
+        shutil.copy(os.path.join(wd, "catalog.txt"), d)
+        line = {"G": "c17 20 %d", "S0": "c17 30 0 %d", "S1": "c17 30 1 %d", "M": "c17 40 %d"}[t] % i
+        return ints(hrun(hb, [line], d, timeout=600)[0])
+    with ThreadPoolExecutor(8) as ex:
+        res = dict(zip(jobs, ex.map(run, jobs)))
+    Gw = []; Gfresh = []
+    for i in range(len(cat["G"])):
+        o = res[("G", i)]
+        if o is None: Gw.append(None); Gfresh.append(None); continue
+        p = [0]
+        def tk():
+            v = o[p[0]]; p[0] += 1; return v
+        def tl(): n = tk(); return [rn(tk()) for _ in range(n)]
+        st = tk(); vs = tl(); nm = tk(); nd = tk(); fin = tk(); mk = tk(); inv = tl(); ni = tl(); pa = tk(); ti = tk(); cb = tk(); pr = tk(); ne = tk(); hm = tk()
+        Gw.append([st, len(vs)] + vs + [nm, nd, fin, mk, len(inv)] + inv + [len(ni)] + ni + [pa, ti, cb, pr, ne, hm])
+    Sw = {0: [], 1: []}
+    for ge in (0, 1):
+        for i in range(len(cat["S"])):
+            o = res[("S%d" % ge, i)]
+            ob = split_lenpref(o)[0] if o else None
+            if ob is None: Sw[ge].append(None); continue
+            if ob[0] == 0:
+                nb, npos, nori = ob[1], ob[2], ob[3]; nn = ob[8]; names = [rn(-h) for h in ob[9:9 + nn]]; idx = ob[9 + nn:]
+                labeled = 1 if nn > 0 else 0
+                per_line = [names[k] for k in idx] if labeled else []
+                Sw[ge].append([0, labeled, len(per_line)] + per_line + [npos, 7 if nori > 0 else 3])
+            elif len(ob) > 1 and ob[1] > 0:      # exception after the positions were assigned: the four-column file without a geometry
+                Sw[ge].append([0, 1, 0, ob[1], 4])
+            else:
+                Sw[ge].append([ob[0], 0, 0, 0, 0])
+    Mw = []
+    for i in range(len(cat["M"])):
+        o = res[("M", i)]
+        if o is None: Mw.append(None); continue
+        st, nv = o[0], o[1]; vs = [rn(h) for h in o[2:2 + nv]]; nt = o[2 + nv]; ts = o[3 + nv:3 + nv + 3 * nt]; so = o[3 + nv + 3 * nt]; sf = o[4 + nv + 3 * nt]
+        Mw.append([st, nv] + vs + [nt] + ts + [so, sf])
+    return Gw, Sw, Mw, rn, res
+
+def check_objects(ck, hb, quick, replay):
+    wd = os.path.join(ck.workdir, "obj"); os.makedirs(wd, exist_ok=True)
+    cat = build_catalog(ck, wd)
+    Gw, Sw, Mw, rn, raw = object_worlds(ck, hb, wd, cat)
+    stats = dict(geometry=dict(seqs=0, ops=0, op={}, status={}), sensors=dict(seqs=0, ops=0, status={}), mesh=dict(seqs=0, ops=0, op={}, status={}, explained_by_known_finding=0))
+    bad = [l for (l, _), w in zip(cat["G"], Gw) if w is None] + [l for (l, _), w in zip(cat["M"], Mw) if w is None] + [l for ge in (0, 1) for (l, _), w in zip(cat["S"], Sw[ge]) if w is None]
+    for l in bad:
+        ck.violation("objects: crash while describing %s" % l, "a single load of %s in a fresh process crashed the harness" % l, dict(kind="crash", entry=l), found_input=False)
+    if bad: return stats
+    rng = ck.rng
+    nG, nS, nM = len(cat["G"]), len(cat["S"]), len(cat["M"])
+    small = [i for i, w in enumerate(Gw) if w[1] <= 200]          # HeadMat only where it is cheap
+    # ---- histories
+    gseqs = [[(0, 0), (0, 0)], [(0, 0), (0, 0), (1, 0)], [(0, 2), (0, 3)], [(0, 0), (1, 0), (1, 0), (0, 4), (0, 0), (1, 0)]]     # witnesses first
+    sseqs = [(0, [0, 0]), (0, [0, 2]), (1, [9, 9])]
+    mseqs = [[(0, 0), (0, 1)], [(0, 0), (1, 0), (0, 0)], [(0, 0), (1, 0), (1, 0)]]
+    if replay:
+        gseqs = [[tuple(o) for o in r["ops"]] for r in replay if r["machine"] == "geometry"]
+        sseqs = [(r["geom"], r["ops"]) for r in replay if r["machine"] == "sensors"]
+        mseqs = [[tuple(o) for o in r["ops"]] for r in replay if r["machine"] == "mesh"]
+    else:
+        L = 8 if quick else 20
+        for _ in range(24 if quick else 200):
+            n = rng.randint(2, L); h = []
+            for _ in range(n):
+                if h and rng.random() < 0.2 and any(o == 0 and i in small for o, i in h[-1:]): h.append((1, 0))
+                else: h.append((0, rng.choice(small) if rng.random() < 0.7 else rng.randrange(nG)))
+            gseqs.append(h)
+        for _ in range(40 if quick else 400):
+            ge = 1 if rng.random() < 0.25 else 0
+            sseqs.append((ge, [rng.randrange(nS) for _ in range(rng.randint(2, L))]))
+        for _ in range(40 if quick else 400):
+            mseqs.append([((1, 0) if rng.random() < 0.15 else (0, rng.randrange(nM))) for _ in range(rng.randint(2, L))])
+    def flat(l): return [x for w in l for x in w]
+    gcases = ["c17 " + " ".join(map(str, [2, 1, nG] + flat(Gw) + [len(h)] + flat(h))) for h in gseqs]
+    scases = ["c17 " + " ".join(map(str, [3, 1, ge, nS] + flat(Sw[ge]) + [len(h)] + h)) for ge, h in sseqs]
+    mcases = ["c17 " + " ".join(map(str, [4, 1, nM] + flat(Mw) + [len(h)] + flat(h))) for h in mseqs]
+    icases = ["c17 " + " ".join(map(str, [4, 3, nM] + flat(Mw) + [len(h)] + flat(h))) for h in mseqs]      # fresh private geometry at every load
+    mo = core.run_model(gcases + scases + mcases + icases)
+    mg, ms, mm, mi = mo[:len(gcases)], mo[len(gcases):len(gcases) + len(scases)], mo[len(gcases) + len(scases):len(gcases) + len(scases) + len(mcases)], mo[len(gcases) + len(scases) + len(mcases):]
+    hl = ["c17 " + " ".join(map(str, [2, len(h)] + flat(h))) for h in gseqs] + ["c17 " + " ".join(map(str, [3, ge, len(h)] + h)) for ge, h in sseqs] + ["c17 " + " ".join(map(str, [4, len(h)] + flat(h))) for h in mseqs]
+    def one(k):
+        d = os.path.join(wd, "q%d" % k); os.makedirs(d, exist_ok=True); shutil.copy(os.path.join(wd, "catalog.txt"), d)
+        r = hrun(hb, [hl[k]], d, timeout=900)[0]; shutil.rmtree(d, ignore_errors=True); return r
+    with ThreadPoolExecutor(8) as ex:
+        ho = list(ex.map(one, range(len(hl))))
+    hg, hs, hm = ho[:len(gcases)], ho[len(gcases):len(gcases) + len(scases)], ho[len(gcases) + len(scases):]
+    def canon_names(obs):       # sensor name hashes -> renumbered ids
+        if obs and obs[0] == 0 and len(obs) > 8:
+            nn = obs[8]; return obs[:9] + [rn(-h) for h in obs[9:9 + nn]] + obs[9 + nn:]
+        return obs
+    GOBS = ["status", "#vertices", "#meshes", "#domains", "nb_parameters", "#communicating_mesh_pairs", "#isolated_parts", "#invalid_vertices", "nb_current_barrier_triangles", "nested"]
+    # ---- geometry
+    for h, m, o in zip(gseqs, mg, hg):
+        stats["geometry"]["seqs"] += 1; stats["geometry"]["ops"] += len(h)
+        names = "; ".join(("load " + cat["G"][i][0]) if op == 0 else "HeadMat" for op, i in h)
+        rp = dict(kind="object-history", machine="geometry", cases=[dict(machine="geometry", ops=[list(x) for x in h])], history=names, replay_cmd="./check C17 --replay <this file>")
+        mt = split_lenpref([int(t) for t in m.split()]); ht = split_lenpref(ints(o))
+        if ints(o) is None:
+            ck.violation("geometry: crash in history " + names, "the harness crashed (%s) while running the history in one process: %s; every single operation runs in a fresh process" % (o, names), rp); continue
+        for q, (op, i) in enumerate(h):
+            stats["geometry"]["op"]["load" if op == 0 else "HeadMat"] = stats["geometry"]["op"].get("load" if op == 0 else "HeadMat", 0) + 1
+            if q < len(ht): stats["geometry"]["status"][str(ht[q][0]) if op == 0 else "assembled"] = stats["geometry"]["status"].get(str(ht[q][0]) if op == 0 else "assembled", 0) + 1
+        diff = [q for q in range(len(h)) if q >= len(ht) or q >= len(mt) or ht[q] != mt[q]]
+        if diff:
+            q = diff[0]; a = ht[q] if q < len(ht) else None; b = mt[q] if q < len(mt) else None
+            fields = [GOBS[k] + ": %s vs %s" % (a[k], b[k]) for k in range(min(len(a or []), len(b or []), 10)) if a[k] != b[k]]
+            ck.violation("geometry: %s differs after history (%s)" % (fields[0].split(":")[0] if fields else "observation", names if len(h) <= 3 else "%d operations" % len(h)),
+                         "operation %d of the history [%s] on one Geometry object gives %s, the same operation on a fresh object gives %s (%s)" % (q, names, a, b, ", ".join(fields)), rp)
+    # ---- sensors
+    for (ge, h), m, o in zip(sseqs, ms, hs):
+        stats["sensors"]["seqs"] += 1; stats["sensors"]["ops"] += len(h)
+        names = "; ".join("load " + cat["S"][i][0] for i in h) + (" [Sensors(geometry)]" if ge else "")
+        rp = dict(kind="object-history", machine="sensors", cases=[dict(machine="sensors", geom=ge, ops=list(h))], history=names, replay_cmd="./check C17 --replay <this file>")
+        if ints(o) is None:
+            ck.violation("sensors: crash in history " + names, "the harness crashed (%s): %s" % (o, names), rp); continue
+        mt = split_lenpref([int(t) for t in m.split()]); ht = [canon_names(x) for x in split_lenpref(ints(o))]
+        for q in range(min(len(ht), len(h))): stats["sensors"]["status"][str(ht[q][0])] = stats["sensors"]["status"].get(str(ht[q][0]), 0) + 1
+        diff = [q for q in range(len(h)) if q >= len(ht) or q >= len(mt) or ht[q] != mt[q]]
+        if diff:
+            q = diff[0]; a = ht[q] if q < len(ht) else None; b = mt[q] if q < len(mt) else None
+            ck.violation("sensors: observation differs after history (%s)" % (names if len(h) <= 3 else "%d loads" % len(h)),
+                         "load %d of the history [%s] on one Sensors object gives (status,m_nb,#positions,#orientations,#weights,#radii,#triangle lists,hasNames,#names,...)=%s, the same load on a fresh object gives %s" % (q, names, (a or [])[:9], (b or [])[:9]), rp)
+    # ---- mesh
+    WIT = [(0, 0), (0, 1)]
+    for h, m, mid, o in zip(mseqs, mm, mi, hm):
+        stats["mesh"]["seqs"] += 1; stats["mesh"]["ops"] += len(h)
+        names = "; ".join(("load " + cat["M"][i][0]) if op == 0 else "SurfSourceMat(Head1,mesh)" for op, i in h)
+        rp = dict(kind="object-history", machine="mesh", cases=[dict(machine="mesh", ops=[list(x) for x in h])], history=names, replay_cmd="./check C17 --replay <this file>")
+        if ints(o) is None:
+            ck.violation("mesh: crash in history " + names, "the harness crashed (%s): %s" % (o, names), rp); continue
+        mt = split_lenpref([int(t) for t in m.split()]); it = split_lenpref([int(t) for t in mid.split()]); ht = split_lenpref(ints(o))
+        for q, (op, i) in enumerate(h):
+            stats["mesh"]["op"]["load" if op == 0 else "SurfSourceMat"] = stats["mesh"]["op"].get("load" if op == 0 else "SurfSourceMat", 0) + 1
+            if q < len(ht) and op == 0: stats["mesh"]["status"][str(ht[q][0])] = stats["mesh"]["status"].get(str(ht[q][0]), 0) + 1
+        diff = [q for q in range(len(h)) if q >= len(ht) or q >= len(mt) or ht[q] != mt[q]]
+        if diff:
+            q = diff[0]
+            ck.violation("mesh: model and implementation differ", "operation %d of [%s]: Mesh observation %s, model (coq/Geom/MeshState.v, m_repaired) %s" % (q, names, (ht[q] if q < len(ht) else None)[:16], (mt[q] if q < len(mt) else None)[:16]), rp, found_input=False)
+            continue
+        # the property's own relation: the same load on a fresh Mesh (model with a fresh private geometry = measured descriptor)
+        dq = [q for q in range(len(h)) if h[q][0] == 0 and ht[q] != it[q]]
+        if dq:
+            q = dq[0]
+            if h == WIT:
+                ck.violation("mesh: load Head1.tri ; load cortex.1.tri - Mesh::triangle indices offset by the vertices of the previous file",
+                             "load cortex.1.tri after Head1.tri into the same stand-alone Mesh: geometry().vertices().size()=%d and first triangle %s, a fresh Mesh gives %d and %s (the private geometry is never cleared)" % (ht[q][1], ht[q][7:10], it[q][1], it[q][7:10]), rp)
+            else:
+                stats["mesh"]["explained_by_known_finding"] += 1
+    stats["catalog"] = dict(geometry=[l for l, _ in cat["G"]], sensors=[l for l, _ in cat["S"]], mesh=[l for l, _ in cat["M"]])
+    return stats
+
 def main(replay=None):
     ck = core.Check(PROP, "proof")
     quick = ck.tier != "thorough"
@@ -281,18 +503,26 @@ def main(replay=None):
     bdir, hb = ck.prepare("Props/Properties_C17.v", "h_c17.cpp")
     if hb is None:
         return ck.finish()
-    rp = None
-    if replay:
-        rp = json.load(open(replay)).get("cases", [])
-    st_io, seqs = check_io(ck, hb, quick, rp if (rp and json.load(open(replay)).get("machine") == "io") else None) if (not replay or json.load(open(replay)).get("machine") == "io") else ({}, [])
-    ck.cov.update(evaluations=st_io.get("ops", 0), distinct_nontrivial=len({json.dumps(s) for s in seqs if len(s[1]) >= 2}),
-                  rule="operation histories (length 1..%d) over 12 file names (suffix classes mat/txt/tex/bin/unknown/none, two in a missing directory) and %d measured contents; non-trivial = at least two operations; distinct = distinct (files, history) pairs" % (8 if quick else 20, st_io.get("contents", 0)),
-                  samples=[describe_io(fs, ops, None) if False else json.dumps(dict(fs=fs, ops=ops)) for fs, ops in seqs[3:6]],
-                  op_distribution=st_io.get("op", {}), outcome_distribution=st_io.get("fail", {}),
-                  traces_validated_against_impl=st_io.get("seqs", 0), io=st_io)
-    ck.cov["trusted_base"] += ["hand-written Gallina state machines coq/Maths/IOState.v tied by differential runs (harness/h_c17.cpp vs extracted extract/omm)",
-                               "world tables (reader/writer outcome per content, format, kind) measured in fresh processes on the working tree",
+    rcases = json.load(open(replay)).get("cases", []) if replay else None
+    rmach = json.load(open(replay)).get("machine") if replay else None
+    st_io, seqs, st_obj = {}, [], {}
+    if not replay or rmach == "io":
+        st_io, seqs = check_io(ck, hb, quick, rcases)
+    if not replay or rmach in ("geometry", "sensors", "mesh"):
+        st_obj = check_objects(ck, hb, quick, rcases)
+    nobj = sum(st_obj.get(k, {}).get("ops", 0) for k in ("geometry", "sensors", "mesh"))
+    ck.cov.update(evaluations=st_io.get("ops", 0) + nobj,
+                  distinct_nontrivial=len({json.dumps(s) for s in seqs if len(s[1]) >= 2}) + sum(st_obj.get(k, {}).get("seqs", 0) for k in ("geometry", "sensors", "mesh")),
+                  rule="IO: operation histories (length 1..%d) over 12 file names (suffix classes mat/txt/tex/bin/unknown/none, two in a missing directory) and %d measured contents; objects: load/assemble histories (length 2..%d) on one Geometry / Sensors / Mesh object over the catalog of data and generated files; non-trivial = at least two operations; distinct = distinct histories" % (8 if quick else 20, st_io.get("contents", 0), 8 if quick else 20),
+                  samples=[json.dumps(dict(fs=fs, ops=ops)) for fs, ops in seqs[3:6]],
+                  op_distribution=dict(io=st_io.get("op", {}), geometry=st_obj.get("geometry", {}).get("op", {}), mesh=st_obj.get("mesh", {}).get("op", {}), sensors=dict(load=st_obj.get("sensors", {}).get("ops", 0))),
+                  outcome_distribution=dict(io=st_io.get("fail", {}), geometry=st_obj.get("geometry", {}).get("status", {}), sensors=st_obj.get("sensors", {}).get("status", {}), mesh=st_obj.get("mesh", {}).get("status", {})),
+                  traces_validated_against_impl=st_io.get("seqs", 0) + sum(st_obj.get(k, {}).get("seqs", 0) for k in ("geometry", "sensors", "mesh")), io=st_io, objects=st_obj)
+    ck.cov["trusted_base"] += ["hand-written Gallina state machines coq/Maths/IOState.v, coq/Geom/{GeomState,SensorsState,MeshState}.v tied by differential runs (harness/h_c17.cpp vs extracted extract/omm)",
+                               "world tables (reader/writer outcome per content, format, kind; what one load does to a fresh Geometry/Sensors/Mesh) measured in fresh processes on the working tree",
                                "extraction: ExtrOcamlBasic only; OCaml driver extract/driver.ml"]
     ck.assumptions += ["the outcome of a codec on given file bytes is a function of (bytes, format, kind) - measured per content in fresh processes, modelled by C07",
-                       "MathsIO::name() of the registered formats is reset by the harness before every operation to observe which codec was selected"]
+                       "MathsIO::name() of the registered formats is reset by the harness before every operation to observe which codec was selected",
+                       "private members of Geometry/Sensors/Mesh observed through #define private public in the harness TU",
+                       "HeadMat / SurfSourceMat compared by a 50-bit fingerprint of the result's bits, OMP_NUM_THREADS=1"]
     return ck.finish()
